@@ -12,6 +12,7 @@ from .common import EXIT_HARNESS, EXIT_OK, EXIT_VIOLATION
 # property -> (kind, module)
 REGISTRY = {
     "C01": ("A", "vf.harness.C01"),
+    "C03": ("A", "vf.harness.C03"),
     "C04": ("A", "vf.harness.C04"),
     "C05": ("A", "vf.harness.C05"),
     "C07": ("A", "vf.harness.C07", "vf.engine_b.c07"),
@@ -70,6 +71,16 @@ def run_A(prop, modname, tier, seed, kmodname=None):
 
     t0 = time.time()
     mod = importlib.import_module(modname)
+    nconf = 0
+    which = getattr(mod, "CONFORMANCE", ())
+    if which:
+        from .stubs import conformance
+
+        nconf, bad = conformance.run_all(which)
+        if bad:
+            print("HARNESS-ERROR property=%s stub conformance failed: %s" % (prop, bad))
+            return EXIT_HARNESS
+        print("  stub conformance: %d comparisons with the real libraries agree (%s)" % (nconf, ", ".join(which)))
     code, records, violations = engine_a.run_property(prop, modname, tier, seed)
     kcov = {}
     if kmodname:
@@ -101,6 +112,7 @@ def run_A(prop, modname, tier, seed, kmodname=None):
         "z3_queries": sum(r["z3_queries"] for r in records.values()),
         "solver_seconds": round(sum(r["z3_seconds"] for r in records.values()), 2),
         "functions_executed": common.source_hash(getattr(mod, "FUNCS", [])),
+        "stub_conformance_comparisons": nconf,
         "engine": "CrossHair 0.0.110 + z3 (symbolic execution of the real functions from /repo working tree)",
         "explanation": "bounded symbolic execution: each condition is a harness over the real code whose "
                        "arguments are solver variables; 'confirmed' = every feasible path within the stated "
